@@ -310,6 +310,8 @@ func execPromise(t []string) string {
 		return execJoinChain()
 	case len(t) == 2 && t[0] == "joinseq":
 		return execJoinSeq(t[1])
+	case len(t) == 1 && t[0] == "fulfillinflight":
+		return execFulfillInflight()
 	case len(t) == 1 && t[0] == "joininflight":
 		return execJoinInflight()
 	case len(t) == 1 && t[0] == "joinnested":
@@ -357,6 +359,54 @@ func waitUntil(f func() bool) bool {
 		time.Sleep(50 * time.Microsecond)
 	}
 	return false
+}
+
+// execFulfillInflight: a call made through Answer.PipelineSend is still inside the promise's caller and no pipelined
+// client was ever handed out; Fulfill (and Reject) must wait until the call has yielded its answer ("Fulfill will wait
+// for any outstanding calls to the underlying PipelineCaller to yield Answers"), and return once it has.
+func execFulfillInflight() string {
+	return timed(6*time.Second, func() string {
+		for _, reject := range []bool{false, true} {
+			ga := &gateCaller{gate: make(chan struct{})}
+			a := capnp.NewPromise(capnp.Method{}, ga)
+			callDone := make(chan struct{})
+			go func() {
+				a.Answer().PipelineSend(context.Background(), pathOps(true), capnp.Send{})
+				close(callDone)
+			}()
+			if !waitUntil(func() bool { return atomic.LoadInt32(&ga.entered) == 1 }) {
+				return "setup-failed"
+			}
+			fa := make(chan struct{})
+			go func() {
+				if reject {
+					a.Reject(errMark)
+				} else {
+					res, _ := resultWithCaps(&countHook{}, &countHook{})
+					a.Fulfill(res)
+				}
+				close(fa)
+			}()
+			early := false
+			select {
+			case <-fa:
+				early = true
+			case <-time.After(40 * time.Millisecond):
+			}
+			ga.gate <- struct{}{} // the call yields
+			select {
+			case <-fa:
+			case <-time.After(2 * time.Second):
+				return "resolution-blocks-after-the-call-yielded"
+			}
+			<-callDone
+			a.ReleaseClients()
+			if early {
+				return "resolved-while-a-call-was-still-inside-the-caller"
+			}
+		}
+		return "ok"
+	})
 }
 
 // execJoinPending: B joins A's answer while A is pending resolution (A's Fulfill waits for a pipelined call that
@@ -843,6 +893,7 @@ func genC11(rec *lib.Rec, r *lib.Rng, thorough bool) {
 		rec.Op("S", "promise joinpending", true)
 		rec.Op("S", "promise joinchain", true)
 		rec.Op("S", "promise joininflight", true)
+		rec.Op("S", "promise fulfillinflight", true)
 		rec.Op("S", "promise joinnested", true)
 		rec.Op("S", "promise recvpending 0", true)
 		rec.Op("S", "promise recvpending 1", true)
